@@ -7,10 +7,10 @@ mkdir -p $EV $OUT
 git -C /repo worktree remove --force $WT 2>/dev/null; git -C /repo worktree prune
 git -C /repo worktree add --detach $WT HEAD >/dev/null 2>&1 || exit 9
 for d in /verif/seeded/${1:-C}*/; do
-  id=$(basename $d)
+  id=$(basename $d); prop=${id%b}
   git -C $WT checkout -q -- . ; git -C $WT apply $d/patch.diff || { echo "$id APPLY-FAILED"; continue; }
   s=$(date +%s)
-  VERIF_REPO=$WT VERIF_EVIDENCE_DIR=$EV timeout 2400 /verif/bin/vcheck $id --tier quick --workers ${WORKERS:-8} > $OUT/$id.log 2>&1
+  VERIF_REPO=$WT VERIF_EVIDENCE_DIR=$EV timeout 2400 /verif/bin/vcheck $prop --tier quick --workers ${WORKERS:-8} > $OUT/$id.log 2>&1
   rc=$?
   echo "$id rc=$rc secs=$(( $(date +%s) - s )) $(grep -E '^VIOLATION' $OUT/$id.log | head -1 | sed 's/.*replay=.*\///' )"
   git -C $WT checkout -q -- .
